@@ -160,7 +160,9 @@ func RunSession(spec SessionSpec) *SessionResult {
 						for _, s := range o.Spec.Signals {
 							toStep <- s
 						}
-						close(toStep)
+						if !o.Spec.HoldSigCh {
+							close(toStep) // (a caller is not obliged to close it: HoldSigCh leaves it open)
+						}
 					}
 					var fromStep chan schema.Input
 					var drained sync.WaitGroup
